@@ -65,7 +65,7 @@ Proof. intros fuel E root g H1 H2 H3 n Hn. exact (flags fuel E root g H1 H2 H3 n
 Theorem C09_string_alias : forall fuel E root g,
   type_graph fuel E root = Ok g ->
   forall p preds m n body, In (p, preds) g -> ntype p = GAliasStr m n body ->
-    preds = [] /\ ncyc p = false /\ nunw p = GRef (remove_all (sapp m ".") body) (Some m).
+    preds = [] /\ ncyc p = false /\ nunw p = GRef (remove_lead (sapp m ".") body) (Some m).
 Proof. intros fuel E root g H p preds m n body H1 H2. exact (string_alias fuel E root g H p preds m n body H1 H2). Qed.
 
 (* ---- what a deferred node denotes ---------------------------------------------------------- *)
@@ -209,6 +209,17 @@ Proof.
   apply (C09_terminates_closed ex_env ex_univ (proj1 C09_terminates_hyps_satisfiable) (GClass 0)); [left; reflexivity | exact Hf].
 Qed.
 
+(* refs.forwardref drops "<module>." only where it leads a dotted name (/repo 31a6d65).  The text function it had
+   before (every occurrence, Graph.remove_all_pinned) differs: within module app, app.webapp.Model is webapp.Model,
+   not webModel -- and the reference the graph builds for such a name denotes another object *)
+Theorem C09_refuted_pinned_forwardref : exists m s,
+  remove_all_pinned (sapp m ".") s <> remove_lead (sapp m ".") s
+  /\ remove_lead (sapp m ".") s = "webapp.Model"%string /\ remove_all_pinned (sapp m ".") s = "webModel"%string.
+Proof. exists "app"%string, "app.webapp.Model"%string. vm_compute. repeat split. discriminate. Qed.
+Example C09_forwardref_leading_only :
+  remove_lead "m." "list[m.A, xm.B, m.m.C]" = "list[A, xm.B, m.C]"%string.
+Proof. vm_compute. reflexivity. Qed.
+
 Print Assumptions C09_terminates.
 Print Assumptions C09_order.
 Print Assumptions C09_flags.
@@ -218,3 +229,4 @@ Print Assumptions C09_input_forms.
 Print Assumptions C09_acyclic.
 Print Assumptions C09_acyclic_rank.
 Print Assumptions C09_terminates_closed.
+Print Assumptions C09_refuted_pinned_forwardref.
